@@ -43,20 +43,29 @@ Section Solver.
     let r0 := nofZ (-2) * qs_hba s in
     ((if r0 <=? n0 then None else Some r0), None).
 
-  (** solve_along_surface(half_b, c): a ~ 0, not on the surface *)
-  Definition solve_along (half_b c : T) : isect2 :=
+  (** solve_along_surface(half_b, c): a ~ 0, not on the surface.
+      [strict = false] is the code as it stands (`result[0] < 0` drops only
+      negative values, so a start point exactly on the surface yields the
+      distance 0); [strict = true] is the repaired comparison `<= 0` used by
+      every other branch. *)
+  Definition solve_along_gen (strict : bool) (half_b c : T) : isect2 :=
     if min_a <? nabs half_b then
       let r0 := (- c) / (n2 * half_b) in
-      ((if r0 <? n0 then None else Some r0), None)
+      ((if (if strict then r0 <=? n0 else r0 <? n0) then None else Some r0), None)
     else (None, None).
 
   (** solve_general(a, half_b, c, on_surface); [on = true] is SurfaceState::on *)
-  Definition solve_general (a half_b c : T) (on : bool) : isect2 :=
+  Definition solve_general_gen (strict : bool) (a half_b c : T) (on : bool) : isect2 :=
     if min_a <=? nabs a then
       let s := mk_solver a half_b in
       if on then solve_on s else solve_c s c
-    else if negb on then solve_along half_b c
+    else if negb on then solve_along_gen strict half_b c
     else (None, None).
+
+  (** which variant the code currently is (flip when the repair is committed) *)
+  Definition along_strict_as_coded : bool := false.
+  Definition solve_along := solve_along_gen along_strict_as_coded.
+  Definition solve_general := solve_general_gen along_strict_as_coded.
 
   Definition isect2_list (r : isect2) : list (option T) := [fst r; snd r].
 End Solver.
